@@ -4,56 +4,88 @@
 // on the real cocls::limited_queue<T>, comparing the projection of the real object with the
 // specification's state after every step.
 //
-// header: {"limit":n, "variants":["<item>/<mode>/<pmode>", ...]}   the scenario is executed once per variant
+// header: {"limit":n, "shift":0..3, "variants":["<queue>/<mode>/<pmode>", ...]}   the scenario is executed once per variant
 //   mode  = poll|coro : coro = every pop future is awaited by a consumer coroutine
 //   pmode = poll|coro : coro = every push future is awaited by a producer coroutine
-//   item  = int       : cocls::limited_queue<int> (default containers, std::mutex)
-//   item  = tracked   : limited_queue<Tracked, CheckedQueue x3, CheckedLock>: an item type whose live
-//                       instances are counted, and -- through the library's Queue/Lock template
-//                       parameters -- containers that report every access made without the lock and a
+//   queue = plain     : cocls::limited_queue<Item> (default containers, std::mutex)
+//   queue = checked   : limited_queue<Item, CheckedQueue x3, CheckedLock>: through the library's Queue/Lock
+//                       template parameters, containers that report every access made without the lock and a
 //                       lock that reports misuse; coroutines report being resumed while the lock is held.
 //                       This binds the specification's grain (all state changes inside the critical
 //                       section, resolutions of other parties' promises outside) to the code.
+//   shift             : the n-th push uses the API form FORMS[(n + shift) % 4] (spec: FormOf(n)):
+//                         one : q.push(n)                     two  : q.push(n, n+50)
+//                         copy: Item x(n, n+50); q.push(x)    move : Item x(n); q.push(std::move(x))
+// The item type records how each instance was built (constructor (int) / (int,int) / initializer_list, the
+// arguments, the number of copy constructions it went through) and counts live instances per value; every
+// item found in the queue, in the blocked queue or in a pop future is projected with these fields and is also
+// compared with a reference built directly as T(args...) when the push was made.  A PushThrowCS step is a push
+// (form rotated likewise) during which the next Item constructor to run throws.
 // projection:
-//   {"blocked":[{"push":id,"v":item}...], "destroyed", "fut":[{"st","v"}...], "items":[...], "limit",
-//    "live":[live instances of value 1..npush], "npop", "npush", "pfut":["ready"|"pending"|"done"|"exc"|"canceled"...],
-//    "ret":{"t1":"none"|"true"|"false"}, "size", "waiters":[pop ids]}
-//   plus, only when wrong: "lock_violation", "empty_mismatch", "limit_mismatch", "stray_item"
+//   {"blocked":[{"push":id,"item":ITEM}...], "destroyed", "fut":[{"st","item":ITEM|null}...], "items":[ITEM...], "limit",
+//    "live":[live instances of value 1..npush], "npop", "npush", "nthrow",
+//    "pfut":["ready"|"pending"|"done"|"exc"|"canceled"...], "ret":{"t1":"none"|"true"|"false"|"threw"}, "size", "waiters":[pop ids]}
+//   ITEM = {"a","b","copies","form":"1"|"2"|"L"}
+//   plus, only when wrong: "lock_violation", "empty_mismatch", "limit_mismatch", "stray_item", "refdiff", "move_source"
 #include <cocls/queue.h>
 #include <cocls/async.h>
 #include <cocls/future.h>
 #include "replay_common.h"
 
 #include <deque>
+#include <initializer_list>
 #include <optional>
 #include <queue>
 
 using namespace rp;
 
-struct TestExc : std::exception {};
+struct TestExc : std::exception {};     // unblock_push / unblock_pop
+struct CtorThrow : std::exception {};   // thrown by an Item constructor on demand
 
 // ---------------------------------------------------------------------------------------------
-// item type with instance accounting: live[v] = number of live, not moved-from instances carrying v
+// item type: records how it was built, counts live instances, throws on demand
+//   live[a] = number of live, not moved-from instances carrying value a
 // ---------------------------------------------------------------------------------------------
-struct Tracked {
+struct Item {
     static inline std::map<int, int> live;
-    int v = 0;
-    explicit Tracked(int x) : v(x) { if (v) live[v]++; }
-    Tracked(const Tracked &o) : v(o.v) { if (v) live[v]++; }
-    Tracked(Tracked &&o) noexcept : v(o.v) { o.v = 0; }
-    Tracked &operator=(const Tracked &o) {
-        if (this != &o) { if (v) live[v]--; v = o.v; if (v) live[v]++; }
+    static inline bool armed = false;       // the next constructor to run throws (one shot)
+    int a = 0, b = 0;
+    char form = '?';                        // constructor that built the original: '1' (int), '2' (int,int), 'L' initializer_list
+    int copies = 0;                         // copy constructions between the original and this instance
+    static void boom() { if (armed) { armed = false; throw CtorThrow(); } }
+    explicit Item(int x) { boom(); a = x; form = '1'; if (a) live[a]++; }
+    Item(int x, int y) { boom(); a = x; b = y; form = '2'; if (a) live[a]++; }
+    Item(std::initializer_list<int> l) {
+        boom();
+        auto it = l.begin();
+        if (it != l.end()) a = *it++;
+        if (it != l.end()) b = *it++;
+        form = 'L';
+        if (a) live[a]++;
+    }
+    Item(const Item &o) { boom(); a = o.a; b = o.b; form = o.form; copies = o.copies + 1; if (a) live[a]++; }
+    Item(Item &&o) { boom(); a = o.a; b = o.b; form = o.form; copies = o.copies; o.a = 0; }
+    Item &operator=(const Item &o) {
+        if (this != &o) { if (a) live[a]--; a = o.a; b = o.b; form = o.form; copies = o.copies + 1; if (a) live[a]++; }
         return *this;
     }
-    Tracked &operator=(Tracked &&o) noexcept {
-        if (this != &o) { if (v) live[v]--; v = o.v; o.v = 0; }
+    Item &operator=(Item &&o) {
+        if (this != &o) { if (a) live[a]--; a = o.a; b = o.b; form = o.form; copies = o.copies; o.a = 0; }
         return *this;
     }
-    ~Tracked() { if (v) live[v]--; }
+    ~Item() { if (a) live[a]--; }
+    bool same(const Item &o) const { return a == o.a && b == o.b && form == o.form && copies == o.copies; }
+    J json() const {
+        J m = J::map();
+        m.set("a", a);
+        m.set("b", b);
+        m.set("copies", copies);
+        m.set("form", std::string(1, form));
+        return m;
+    }
 };
 
-inline int val_of(int x) { return x; }
-inline int val_of(const Tracked &x) { return x.v; }
+static const char *const FORMS[4] = {"one", "two", "copy", "move"};
 
 // ---------------------------------------------------------------------------------------------
 // lock discipline (single-threaded: one global flag)
@@ -87,19 +119,28 @@ public:
 };
 }  // namespace lockcheck
 
-template <typename X> std::queue<X> &raw(cocls::primitives::std_queue<X> &q) { return q; }
-template <typename X> std::queue<X> &raw(lockcheck::Queue<X> &q) { return q._q; }
+// read-only view of the container under a std::queue (its protected member `c`): the probe must not move or
+// copy items, that would disturb what the items record about themselves
+template <typename X>
+const std::deque<X> &under(const std::queue<X> &q) {
+    struct H : std::queue<X> {
+        static const std::deque<X> &get(const std::queue<X> &x) { return x.*(&H::c); }
+    };
+    return H::get(q);
+}
+template <typename X> const std::deque<X> &elems(const cocls::primitives::std_queue<X> &q) { return under<X>(q); }
+template <typename X> const std::deque<X> &elems(const lockcheck::Queue<X> &q) { return under<X>(q._q); }
 
-template <typename T> struct QueueOf { using type = cocls::limited_queue<T>; };
-template <> struct QueueOf<Tracked> {
-    using type = cocls::limited_queue<Tracked, lockcheck::Queue, lockcheck::Queue, lockcheck::Queue, lockcheck::Lock>;
+template <bool Checked> struct QueueOf { using type = cocls::limited_queue<Item>; };
+template <> struct QueueOf<true> {
+    using type = cocls::limited_queue<Item, lockcheck::Queue, lockcheck::Queue, lockcheck::Queue, lockcheck::Lock>;
 };
 
 // limited_queue derives from queue<T> *protectedly*: unblock_pop and all state are reachable only
 // from a derived class
-template <typename T>
-struct Probe : QueueOf<T>::type {
-    using Base = typename QueueOf<T>::type;
+template <bool Checked>
+struct Probe : QueueOf<Checked>::type {
+    using Base = typename QueueOf<Checked>::type;
     using Base::Base;
     using Base::_queue;
     using Base::_awaiters;
@@ -115,11 +156,10 @@ struct Rec {
     int resumes = 0;
 };
 
-template <typename T>
-cocls::async<void> consumer(cocls::future<T> &f, Rec &r) {
+inline cocls::async<void> consumer(cocls::future<Item> &f, Rec &r) {
     try {
-        T &x = co_await f;
-        r.v = val_of(x);
+        Item &x = co_await f;
+        r.v = x.a;
         r.st = "val";
     } catch (const cocls::await_canceled_exception &) {
         r.st = "canceled";
@@ -147,28 +187,43 @@ inline cocls::async<void> producer(cocls::future<void> &f, Rec &r) {
 
 struct Variant { bool coro, pcoro; };
 
-template <typename T>
+template <bool Checked>
 struct World {
-    std::unique_ptr<Probe<T>> q;
-    std::deque<std::unique_ptr<cocls::future<T>>> futs;        // pop futures, by pop id - 1
+    std::unique_ptr<Probe<Checked>> q;
+    std::deque<std::unique_ptr<cocls::future<Item>>> futs;     // pop futures, by pop id - 1
     std::deque<Rec> recs;
     std::deque<std::unique_ptr<cocls::future<void>>> pfuts;    // push futures, by push id - 1
     std::deque<Rec> precs;
     std::deque<bool> pimm;                                     // push future was ready when push() returned
+    std::deque<std::unique_ptr<cocls::future<void>>> stray;    // futures returned by pushes that should have thrown
     std::map<const void *, int> id_of;    // pop future address -> pop id
     std::map<const void *, int> pid_of;   // push future address -> push id
+    struct Ref { int b; char form; int copies; };
+    std::map<int, Ref> ref;
     std::string ret = "none";
-    int npush = 0, npop = 0, limit = 0;
+    std::string move_source;              // a "move" push left its source intact / a failed one consumed it
+    int npush = 0, npop = 0, nthrow = 0, limit = 0, shift = 0;
     bool coro = false, pcoro = false;
+    int refdiff = 0;
+
+    void note(const Item &x) {
+        auto it = ref.find(x.a);
+        if (it == ref.end()) return;
+        if (it->second.b != x.b || it->second.form != x.form || it->second.copies != x.copies) refdiff = x.a;
+    }
 
     J fut_state(std::size_t i) {
         J m = J::map();
-        cocls::future<T> &f = *futs[i];
+        cocls::future<Item> &f = *futs[i];
         std::string st = "pending";
         int v = 0;
+        J item;
         if (f.ready()) {
             try {
-                v = val_of(f.value());
+                const Item &x = f.value();
+                v = x.a;
+                item = x.json();
+                note(x);
                 st = "val";
             } catch (const cocls::await_canceled_exception &) { st = "canceled"; }
             catch (const TestExc &) { st = "exc"; }
@@ -182,7 +237,7 @@ struct World {
             }
         }
         m.set("st", st);
-        m.set("v", v);
+        m.set("item", item);
         return m;
     }
 
@@ -219,36 +274,22 @@ struct World {
         J waiters = J::list();
         J blocked = J::list();
         std::size_t size = 0;
-        std::vector<int> cnt(npush + 1, 0);   // places holding each value (int items carry no identity)
-        auto count = [&](int v) { if (v >= 1 && v <= npush) cnt[v]++; };
+        refdiff = 0;
         if (q) {
-            {
-                auto copy = raw(q->_queue);   // std::queue<T> copy
-                while (!copy.empty()) { items.push(val_of(copy.front())); count(val_of(copy.front())); copy.pop(); }
-            }
+            for (const Item &x : elems(q->_queue)) { items.push(x.json()); note(x); }
             // the parked pop promises: identify each by the future it points to
-            auto &aw = raw(q->_awaiters);
-            std::size_t n = aw.size();
-            for (std::size_t i = 0; i < n; i++) {
-                cocls::promise<T> p = std::move(aw.front());
-                aw.pop();
+            for (const cocls::promise<Item> &p : elems(q->_awaiters)) {
                 auto it = id_of.find(p.get_id());
                 waiters.push(it == id_of.end() ? -1 : it->second);
-                aw.push(std::move(p));
             }
             // the blocked pushes: item + the push future its promise<void> points to
-            auto &bl = raw(q->_blocked);
-            n = bl.size();
-            for (std::size_t i = 0; i < n; i++) {
-                auto e = std::move(bl.front());
-                bl.pop();
+            for (const auto &e : elems(q->_blocked)) {
                 J b = J::map();
-                b.set("v", val_of(e.first));
-                count(val_of(e.first));
+                b.set("item", e.first.json());
+                note(e.first);
                 auto it = pid_of.find(e.second.get_id());
                 b.set("push", it == pid_of.end() ? -1 : it->second);
                 blocked.push(b);
-                bl.push(std::move(e));
             }
             size = q->size();                       // the public observers
             if (q->empty() != (size == 0)) m.set("empty_mismatch", true);
@@ -259,58 +300,105 @@ struct World {
         m.set("blocked", blocked);
         m.set("size", size);
         J fl = J::list();
-        for (std::size_t i = 0; i < futs.size(); i++) {
-            fl.push(fut_state(i));
-            if (futs[i]->ready()) {
-                try { count(val_of(futs[i]->value())); } catch (...) {}
-            }
-        }
+        for (std::size_t i = 0; i < futs.size(); i++) fl.push(fut_state(i));
         m.set("fut", fl);
         J pl = J::list();
         for (std::size_t i = 0; i < pfuts.size(); i++) pl.push(pfut_state(i));
         m.set("pfut", pl);
-        // live instances per pushed value
+        // live instances per pushed value; nothing else may be alive (items of failed pushes, harness sources)
         J live = J::list();
-        if constexpr (std::is_same_v<T, Tracked>) {
-            for (int v = 1; v <= npush; v++) live.push(Tracked::live[v]);
-            for (auto &kv : Tracked::live) if ((kv.first < 1 || kv.first > npush) && kv.second != 0) m.set("stray_item", kv.first);
-        } else {
-            for (int v = 1; v <= npush; v++) live.push(cnt[v]);
-        }
+        for (int v = 1; v <= npush; v++) live.push(Item::live[v]);
+        for (auto &kv : Item::live) if ((kv.first < 1 || kv.first > npush) && kv.second != 0) m.set("stray_item", kv.first);
         m.set("live", live);
         m.set("npush", npush);
         m.set("npop", npop);
+        m.set("nthrow", nthrow);
         J r = J::map();
         r.set("t1", ret);
         m.set("ret", r);
+        if (refdiff) m.set("refdiff", refdiff);            // an item differs from a direct T(args...)
+        if (!move_source.empty()) m.set("move_source", move_source);
         if (!lockcheck::violation.empty()) m.set("lock_violation", lockcheck::violation);
         return m;
+    }
+
+    // push value `a` through API form `form`; `arm`: the next Item constructor to run throws
+    cocls::future<void> push_form(const std::string &form, int a, bool arm) {
+        if (form == "one") {
+            Item::armed = arm;
+            return q->push(a);
+        } else if (form == "two") {
+            Item::armed = arm;
+            return q->push(a, a + 50);
+        } else if (form == "copy") {
+            Item x(a, a + 50);
+            Item::armed = arm;
+            return q->push(x);
+        } else {
+            Item x(a);
+            struct Check {      // runs after push() returned or threw, before x dies
+                World &w; Item &x; int a; bool arm;
+                ~Check() {
+                    bool threw = std::uncaught_exceptions() > 0;
+                    if (!threw && x.a != 0) w.move_source = "left intact by a successful push";
+                    if (threw && x.a != a) w.move_source = "consumed by a failed push";
+                }
+            } chk{*this, x, a, arm};
+            Item::armed = arm;
+            return q->push(std::move(x));
+        }
+    }
+
+    // what a direct T(args...) gives for the same form
+    void reference(const std::string &form, int a) {
+        auto keep = [&](const Item &r) { ref[a] = Ref{r.b, r.form, r.copies}; };
+        if (form == "one") { Item r(a); keep(r); }
+        else if (form == "two") { Item r(a, a + 50); keep(r); }
+        else if (form == "copy") { Item x(a, a + 50); Item r(x); keep(r); }
+        else { Item x(a); Item r(std::move(x)); keep(r); }
     }
 
     void run(const Scenario &sc, Reporter &rep, Variant var) {
         coro = var.coro;
         pcoro = var.pcoro;
         limit = (int) sc.hdr.at("limit").as_int(1);
-        if constexpr (std::is_same_v<T, Tracked>) Tracked::live.clear();
+        shift = (int) sc.hdr.at("shift").as_int(0);
+        Item::live.clear();
+        Item::armed = false;
         lockcheck::held = 0;
         lockcheck::violation.clear();
-        q.reset(new Probe<T>((std::size_t) limit));
+        q.reset(new Probe<Checked>((std::size_t) limit));
         for (std::size_t k = 0; k < sc.steps.size(); k++) {
             const Step &st = sc.steps[k];
             ret = "none";
             if (st.name == "PushCS") {
                 npush++;
-                pfuts.emplace_back(new cocls::future<void>(q->push(npush)));
+                const std::string form = FORMS[(npush + shift) % 4];
+                reference(form, npush);
+                pfuts.emplace_back(new cocls::future<void>(push_form(form, npush, false)));
                 pid_of[pfuts.back().get()] = npush;
                 pimm.push_back(pfuts.back()->ready());
                 precs.emplace_back();
                 if (pcoro) producer(*pfuts.back(), precs.back()).detach();
+            } else if (st.name == "PushThrowCS") {
+                // a push whose item cannot be constructed: value 900+k must never show up anywhere
+                nthrow++;
+                const std::string form = FORMS[(npush + nthrow + shift) % 4];
+                try {
+                    stray.emplace_back(new cocls::future<void>(push_form(form, 900 + nthrow, true)));
+                    ret = std::string("returned:") + (stray.back()->ready() ? "ready" : "pending");
+                } catch (const CtorThrow &) {
+                    ret = "threw";
+                } catch (...) {
+                    ret = "other-exception";
+                }
+                if (Item::armed) { Item::armed = false; ret += "+no-constructor-ran"; }
             } else if (st.name == "PopCS") {
                 npop++;
-                futs.emplace_back(new cocls::future<T>(q->pop()));
+                futs.emplace_back(new cocls::future<Item>(q->pop()));
                 id_of[futs.back().get()] = npop;
                 recs.emplace_back();
-                if (coro) consumer<T>(*futs.back(), recs.back()).detach();
+                if (coro) consumer(*futs.back(), recs.back()).detach();
             } else if (st.name == "UnblockPushCS") {
                 bool r = q->unblock_push(std::make_exception_ptr(TestExc()));
                 ret = r ? "true" : "false";
@@ -344,31 +432,31 @@ struct World {
         // a pending future must not be destroyed (future.h:175): leak those of a diverged scenario
         for (auto &f : futs) if (f->pending()) f.release();
         for (auto &f : pfuts) if (f->pending()) f.release();
+        for (auto &f : stray) if (f->pending()) f.release();
         futs.clear();
         pfuts.clear();
-        if constexpr (std::is_same_v<T, Tracked>) {
-            if (!rep.failed()) {
-                for (auto &kv : Tracked::live) {
-                    if (kv.second != 0) { rep.diverge(last, "item instance leaked or destroyed twice: value " + std::to_string(kv.first) + " live=" + std::to_string(kv.second)); break; }
-                }
+        stray.clear();
+        if (!rep.failed()) {
+            for (auto &kv : Item::live) {
+                if (kv.second != 0) { rep.diverge(last, "item instance leaked or destroyed twice: value " + std::to_string(kv.first) + " live=" + std::to_string(kv.second)); break; }
             }
         }
     }
 };
 
-// "variants": ["item/mode/pmode", ...] -- the scenario is executed once per listed variant
-struct VarSpec { std::string item, mode, pmode; };
+// "variants": ["queue/mode/pmode", ...] -- the scenario is executed once per listed variant
+struct VarSpec { std::string queue, mode, pmode; };
 static std::vector<VarSpec> variants(const Scenario &sc) {
     std::vector<VarSpec> out;
     for (const JV &e : sc.hdr.at("variants").l) {
-        std::istringstream ss(e.as_str("int/poll/poll"));
+        std::istringstream ss(e.as_str("plain/poll/poll"));
         VarSpec v;
-        std::getline(ss, v.item, '/');
+        std::getline(ss, v.queue, '/');
         std::getline(ss, v.mode, '/');
         std::getline(ss, v.pmode, '/');
         out.push_back(v);
     }
-    if (out.empty()) out.push_back({"int", "poll", "poll"});
+    if (out.empty()) out.push_back({"plain", "poll", "poll"});
     return out;
 }
 
@@ -377,9 +465,9 @@ int main() {
         for (const VarSpec &vs : variants(sc)) {
             if (rep.failed()) return;
             Variant v{vs.mode == "coro", vs.pmode == "coro"};
-            if (vs.item == "tracked") { World<Tracked> w; w.run(sc, rep, v); }
-            else { World<int> w; w.run(sc, rep, v); }
-            if (rep.failed()) printf("#variant %s %s/%s/%s\n", sc.id.c_str(), vs.item.c_str(), vs.mode.c_str(), vs.pmode.c_str());
+            if (vs.queue == "checked") { World<true> w; w.run(sc, rep, v); }
+            else { World<false> w; w.run(sc, rep, v); }
+            if (rep.failed()) printf("#variant %s %s/%s/%s\n", sc.id.c_str(), vs.queue.c_str(), vs.mode.c_str(), vs.pmode.c_str());
         }
     });
 }
